@@ -270,6 +270,7 @@ func (p c10) Run(t *testing.T, s harness.Scenario) harness.Outcome {
 	sc := s.(*C10Scenario)
 	probes := map[string]int{}
 	var v *simrt.Violation
+	simrt.Progress.Add(1) // no driver in this profile: tell the worker's watchdog that runs are completing
 	h := simhook.HashString(sc.Kind)
 	if sc.Kind == "ints" {
 		v = p.runInts(sc, probes)
